@@ -66,6 +66,7 @@ def family(pid, tier, seed):
             GG.random_inputs(g, rng, rnd, 8, seen)
             gs.append(g)
         gs += curated_c11(rng)
+        gs += [g for g in curated_core(rng) if g["id"] == "t3"]
     elif pid == "C13":
         n, exh, rnd = (24, 3, 60) if quick else (300, 4, 250)
         for i in range(n):
@@ -138,6 +139,10 @@ def curated_core(rng, with_tokens=True):
                                      [F("R", "tokens"), F("K", "token"), F("S", "string")])], ks=(0, 1, 2, -1)))
         gs.append(mk_grammar("t2", [("P0", grp("plus", cap("N", "nodes", {"op": "prod", "p": "P1"})), [F("N", "nodes", "P1")]),
                                      ("P1", alt(seq(lit("("), cap("K", "token", grp("once", seq(ref("Ident"), grp("opt", ref("Int"))))), lit(")")), cap("T", "tokens", grp("once", seq(ref("Int"), ref("Int"))))), [F("K", "token"), F("T", "tokens")])]))
+    if with_tokens:
+        # one []lexer.Token / lexer.Token field written by several separate captures (the last capture wins)
+        gs.append(mk_grammar("t3", [("P0", seq(cap("R", "tokens", ref("Ident")), grp("star", seq(lit("("), cap("R", "tokens", grp("once", seq(ref("Ident"), grp("opt", ref("Int"))))))), grp("opt", cap("K", "token", ref("Int"))), grp("opt", cap("K", "token", lit(")")))),
+                                     [F("R", "tokens"), F("K", "token")])], with_pos=True))
     # explicit EOF
     gs.append(mk_grammar("e0", [("P0", seq(grp("plus", cap("W", "strings", ref("Ident"))), grp("once", alt(lit(";"), ref("EOF")))), [F("W", "strings")])], trailing=True))
     gs.append(mk_grammar("e1", [("P0", seq(cap("A", "string", ref("Ident")), grp("opt", cap("B", "strings", ref("Int"))), grp("once", alt(seq(lit("!"), ref("EOF")), ref("EOF"), lit("(")))), [F("A", "string"), F("B", "strings")])], trailing=True, ks=(0, 1, -1)))
@@ -170,6 +175,9 @@ def leak_family(rng, quick):
     def grp(mode, kid):
         return {"op": "grp", "mode": mode, "kid": kid}
 
+    def look(neg, kid):
+        return {"op": "look", "neg": neg, "kid": kid}
+
     kinds = ["string", "strings", "bool", "int8", "token"]
     nested_opts = ["none", "complete", "partial", "deep"]
     cps = ["alt", "opt", "star", "plus", "neg", "look", "nlook", "altalt"]
@@ -178,6 +186,8 @@ def leak_family(rng, quick):
     if quick:
         combos = combos[:60]
     combos += [("zw_prod", "none", k) for k in ("string", "token")] + [("zw_cap", "none", k) for k in ("tokens", "string", "bool")]
+    combos += [(c, n, k) for c in ("lookcap", "nlookcap") for n in ("none", "complete", "partial") for k in ("string", "strings", "bool")]
+    combos += [("caploop", "none", k) for k in ("string", "strings", "tokens")] + [("capplus", "none", k) for k in ("string", "strings")]
     for idx, (cp, nested, kind) in enumerate(combos):
         fields0 = [{"name": "A", "kind": kind, "arg": ""}, {"name": "B", "kind": "strings", "arg": ""}, {"name": "C", "kind": "string", "arg": ""}]
         capA = cap("A", kind, ref("Int") if kind == "int8" else ref("Ident"))
@@ -209,6 +219,16 @@ def leak_family(rng, quick):
         elif cp == "zw_cap":
             fields0 = [{"name": "T", "kind": kind, "arg": ""}, {"name": "C", "kind": "string", "arg": ""}]
             body = {"op": "alt", "kids": [seq(cap("T", kind, grp("once", grp("opt", lit("-")))), lit("!")), cont]}
+            prods_extra = []
+        elif cp in ("lookcap", "nlookcap"):
+            # captures INSIDE a lookahead group: a lookahead never contributes captures, whether it matches or not
+            body = seq(look(cp == "nlookcap", attempt), cont)
+        elif cp in ("caploop", "capplus"):
+            # a capture wrapping a repetition whose last iteration matches a token and then fails softly
+            rep = grp("star" if cp == "caploop" else "plus", seq(lit("("), ref("Ident")))
+            inner_ = seq(ref("Ident"), rep) if cp == "caploop" else rep
+            fields0 = [{"name": "A", "kind": kind, "arg": ""}, {"name": "C", "kind": "string", "arg": ""}]
+            body = seq(cap("A", kind, grp("once", inner_)), cont)
             prods_extra = []
         elif cp == "alt":
             body = {"op": "alt", "kids": [attempt, cont]}
@@ -247,6 +267,8 @@ def leak_family(rng, quick):
                     ts = ([a] + nb + tail[:1]) * (rep - 1) + [a] + nb + tail
                     GG.add_input(g, " ".join(ts), seen)
                     GG.add_input(g, " ".join(["z"] + ts), seen)
+        for ts in (["x", "(", "y", "(", "7"], ["x", "(", "y", "(", "(", "z"], ["(", "y", "(", "7"], ["x", "(", "7"], ["x", "(", "y", "("], ["(", "y", "(", "z", "(", ")"]):
+            GG.add_input(g, " ".join(ts), seen)
         for ts in (["x", "w"], ["7"], ["x", "?"], ["-", "7", "!"], ["-", "!"], ["!"], ["-", "x"], ["-", "7", "?"]):
             GG.add_input(g, " ".join(ts), seen)
         GG.random_inputs(g, rng, 20 if quick else 80, 7, seen, seps=(" ", " ", "  "))
